@@ -860,6 +860,105 @@ def plain_statements(fn: ast.AST) -> ast.AST:
     return new
 
 
+def hoist_walrus(fn: ast.AST) -> ast.AST:
+    """A copy of *fn* in which `if (x := E) is not None: ..` is `x = E; if x is not None: ..` (and the same for the value
+    of a plain assignment / expression statement / return): an assignment expression that is evaluated unconditionally
+    and before anything else of its statement that could have an effect or read *x* is bound by a statement of its own,
+    so that the definition tables, the copy propagation and the value expansion see one spelling of `name a value,
+    then test it`.  Not hoisted: `while` tests (evaluated again), operands behind `and` / `or` / a conditional
+    expression, anything inside a comprehension or lambda (conditional / own scope), a walrus preceded in evaluation
+    order by an operand that is not a constant or a (dotted) name, or by a read of its own target."""
+    if not any(isinstance(x, ast.NamedExpr) for x in ast.walk(fn)):
+        return fn
+    new = clone(fn)
+    changed = False
+
+    def first_walrus(e: ast.AST, before: List[ast.AST]) -> Optional[ast.NamedExpr]:
+        if isinstance(e, ast.NamedExpr):
+            if isinstance(e.target, ast.Name) and not any(isinstance(x, ast.NamedExpr) for x in ast.walk(e.value)):
+                return e
+            return None
+        if isinstance(e, ast.UnaryOp):
+            kids = [e.operand]
+        elif isinstance(e, ast.Compare):
+            kids = [e.left] + list(e.comparators)
+        elif isinstance(e, ast.BinOp):
+            kids = [e.left, e.right]
+        elif isinstance(e, ast.BoolOp):
+            kids = [e.values[0]]
+        elif isinstance(e, ast.IfExp):
+            kids = [e.test]
+        elif isinstance(e, ast.Attribute):
+            kids = [e.value]
+        elif isinstance(e, ast.Subscript):
+            kids = [e.value, e.slice]
+        elif isinstance(e, ast.Call):
+            kids = [e.func] + list(e.args) + [k.value for k in e.keywords]
+        elif isinstance(e, (ast.Tuple, ast.List)):
+            kids = list(e.elts)
+        else:
+            return None
+        for k in kids:
+            if any(isinstance(x, ast.NamedExpr) for x in ast.walk(k)):
+                return first_walrus(k, before)
+            if not (isinstance(k, ast.Constant) or dotted_name(k) is not None):
+                return None
+            before.append(k)
+        return None
+
+    again = True
+    rounds = 0
+    while again and rounds < 200:
+        again = False
+        rounds += 1
+        for node in list(ast.walk(new)):
+            for field in ("body", "orelse", "finalbody"):
+                block = getattr(node, field, None)
+                if not (isinstance(block, list) and block and isinstance(block[0], ast.stmt)):
+                    continue
+                for i, st in enumerate(block):
+                    if isinstance(st, ast.If):
+                        host = st.test
+                    elif isinstance(st, (ast.Assign, ast.AnnAssign, ast.Expr, ast.Return)) and getattr(st, "value", None) is not None:
+                        host = st.value
+                    else:
+                        continue
+                    if not any(isinstance(x, ast.NamedExpr) for x in ast.walk(host)):
+                        continue
+                    before: List[ast.AST] = []
+                    w = first_walrus(host, before)
+                    if w is None or any(isinstance(x, ast.Name) and x.id == w.target.id for b in before for x in ast.walk(b)):
+                        continue
+                    bind = ast.Assign(targets=[ast.Name(id=w.target.id, ctx=ast.Store())], value=w.value)
+                    for y in [bind] + bind.targets:
+                        ast.copy_location(y, st)
+                    ref = ast.copy_location(ast.Name(id=w.target.id, ctx=ast.Load()), w)
+
+                    class T(ast.NodeTransformer):
+                        def visit_NamedExpr(self, n: ast.NamedExpr):
+                            return ref if n is w else self.generic_visit(n)
+
+                    if isinstance(st, ast.If):
+                        st.test = T().visit(st.test)
+                    else:
+                        st.value = T().visit(st.value)
+                    block.insert(i, bind)
+                    again = changed = True
+                    break
+                if again:
+                    break
+            if again:
+                break
+    if not changed:
+        return fn
+    ast.fix_missing_locations(new)
+    _attach_parents(new)
+    new._parent = parent(fn)  # type: ignore[attr-defined]
+    if hasattr(fn, "_normal_of"):
+        new._normal_of = fn._normal_of  # type: ignore[attr-defined]
+    return new
+
+
 def lookup_canon(e: ast.AST, present: Set[Tuple[str, str]] = frozenset()) -> ast.AST:
     """*e* with the spellings of one mapping look-up written one way.  Without knowledge about the key:
     `M[K] if K in M else D` / `D if K not in M else M[K]` is `M.get(K, D)` and `M.get(K, None)` is `M.get(K)`.  For a
@@ -1444,7 +1543,7 @@ def _repo_callees(repo: Repo, mod, fn: ast.AST, call: ast.Call) -> List[Tuple[ob
 
 def _plain_form(repo: Repo, m, f: ast.AST) -> ast.AST:
     try:
-        return normalize(repo, m, f, inline=False, copyprop="", ifexp=False)
+        return normalize(repo, m, hoist_walrus(f), inline=False, copyprop="", ifexp=False)
     except AnalysisError:
         raise
     except Exception:
@@ -1604,7 +1703,7 @@ def serialize_encoders(repo: Repo, R: Report, rule: str, rule_whole: Optional[st
             continue
         chain.append((raw, inherited))
         try:
-            fn = normalize(repo, mod, raw, inline=False, copyprop="", ifexp=False)
+            fn = normalize(repo, mod, hoist_walrus(raw), inline=False, copyprop="", ifexp=False)
         except AnalysisError:
             raise
         except Exception:
@@ -2103,7 +2202,7 @@ class Roles:
         keep = tuple(opts.pop("keep", ())) + self.keep()
         key = (id(fn), keep, tuple(sorted(opts.items())))
         if key not in self._nf:
-            self._nf[key] = normalize(self.repo, self.mod(role), plain_statements(search_loops(plain_traversal(fn))), keep=keep, **opts)
+            self._nf[key] = normalize(self.repo, self.mod(role), plain_statements(search_loops(plain_traversal(hoist_walrus(fn)))), keep=keep, **opts)
         return self._nf[key]
 
     def is_call(self, c: ast.AST, role: str) -> bool:
@@ -2469,7 +2568,7 @@ def canonical_resolver(repo: Repo, mod, fn: ast.AST, roles: Dict[str, str]) -> a
                 t = []
             if len(t) == 1 and isinstance(t[0][1], ast.FunctionDef):
                 helpers[dotted_name(c.func) or ""] = t[0][1].name
-    nf = normalize(repo, mod, search_loops(fn), keep=tuple(sorted(set(helpers.values()) | {"_default_for"})))
+    nf = normalize(repo, mod, search_loops(hoist_walrus(fn)), keep=tuple(sorted(set(helpers.values()) | {"_default_for"})))
     rename = {roles["config"]: "processor_config", roles["name"]: "name", roles["context"]: "context"}
     if "cls" in roles:
         rename[roles["cls"]] = "processor_cls"
@@ -2512,7 +2611,7 @@ def run(repo: Repo, R: Report) -> None:
         for qn, raw_fn in [(q, n) for q, n in mod.defs.items() if isinstance(n, FuncNode)]:
             # normal form without inlining: a designator hoisted into a module constant is a 'Z' again
             try:
-                fn = normalize(repo, mod, raw_fn, inline=False, copyprop="", ifexp=False)
+                fn = normalize(repo, mod, hoist_walrus(raw_fn), inline=False, copyprop="", ifexp=False)
             except AnalysisError:
                 raise
             except Exception:
@@ -2585,7 +2684,7 @@ def run(repo: Repo, R: Report) -> None:
         jmod = repo.module(JSONL)
         # the record may be assembled in helpers of the driver: they are looked at in the method's normal form (inlined),
         # the ones that cannot be inlined where they are (every function of the module the method reaches)
-        f = normalize(repo, jmod, plain_statements(raw), keep=tuple(sorted(producers)), deep=True)
+        f = normalize(repo, jmod, plain_statements(hoist_walrus(raw)), keep=tuple(sorted(producers)), deep=True)
         inlined = set(getattr(f, "_inlined", []) or [])
         scopes = [f] + [h for _m, h in A.region(jmod, raw) if h is not raw and h.name not in inlined and h.name not in producers]
         vals, n_ts = [], 0
@@ -3081,7 +3180,7 @@ def run(repo: Repo, R: Report) -> None:
     R.check(is_sorted_expr(ck) and is_sorted_expr(uk), r_d, CREL, CQ, "created_keys / updated_keys are sorted lists", "the returned key lists are not sorted", comp.lineno)
     # the 'differs' test itself: equality of the two values under one injective rendering
     for semod, se_raw in eq_fns:
-        se = normalize(repo, semod, se_raw, keep=A.keep())
+        se = normalize(repo, semod, hoist_walrus(se_raw), keep=A.keep())
         sep = pos_params(se)
         se_rets = [x for r in walk_no_nested(se) if isinstance(r, ast.Return) for x in (every_of(se, expand(se, r.value)) or [r.value])]
 
@@ -3136,7 +3235,7 @@ def run(repo: Repo, R: Report) -> None:
 
     if A.has("snapshot"):
         # normal form with delegation followed: a body moved into a helper (`return _impl(ctx)`) is looked at where it is
-        snap = normalize(repo, A.mod("snapshot"), A.fn("snapshot"), keep=(), deep=True)
+        snap = normalize(repo, A.mod("snapshot"), hoist_walrus(A.fn("snapshot")), keep=(), deep=True)
         rets = [x for n in walk_no_nested(snap) if isinstance(n, ast.Return) for x in (every_of(snap, expand(snap, n.value)) or [n.value])]
         ok = bool(rets) and all(fresh_mapping(r) for r in rets)
         R.check(ok, r_d, A.rel("snapshot"), A.qn("snapshot"), "every return is dict(...) or {}", "a snapshot aliases the live context: pre and post views are the same object and the delta is always empty", snap.lineno)
